@@ -201,6 +201,123 @@ theorem C04_gen_getInternal : HuffLZ_GetInternalBuffer_translated = true →
     bits_norm
     bits_close
 
+/-! ## `HuffLZ::CopyAvailableData`: the copy half of `GetData`
+
+The generated definition records, per `memcpy` in path order, destination offset, source offset and length (`-1` when that
+`memcpy` is not performed), the new `m_BuffReadIndex` and the returned count.  `C04_gen_copyAvailable_extents` is the
+index / length statement (unfold, numerals, a case split on every `if`, `omega` — no step follows the order of the tests or the
+spelling of a clamp or of the wrap-around); `C04_gen_copyAvailable` derives from it, with model-side lemmas only (`seg_append`,
+`copyAvailable_eq`), that the bytes the `memcpy`s read are the bytes the model's `copyAvailable` delivers. -/
+
+/-- the index / length content of a result of the generated `CopyAvailableData` (`w`, `r` the indices before the call):
+    returned count and new read index are those of a delivery of `n = min size waiting` bytes, the two recorded `memcpy`
+    slots `(dst, src, len)` (absent: `-1`) have lengths adding up to `n`, a slot that moves bytes writes at destination offset
+    `0` (first) / length of the first (second), reads from the read index / the read index advanced circularly by the first
+    length, and stays inside the `N`-byte buffer -/
+def CopyExtents (w r size : Nat) : Option (Int × Int × Int × Int × Int × Int × Int × Int) → Prop
+  | none => False
+  | some (ret, r', d0, s0, l0, d1, s1, l1) =>
+      ret = ((min size ((w + N - r) % N) : Nat) : Int) ∧
+      r' = (((r + min size ((w + N - r) % N)) % N : Nat) : Int) ∧
+      l0.toNat + l1.toNat = min size ((w + N - r) % N) ∧
+      (0 < l0 → d0 = 0 ∧ s0 = (r : Int) ∧ s0 + l0 ≤ (N : Int)) ∧
+      (0 < l1 → d1 = (l0.toNat : Int) ∧ s1 = (((r + l0.toNat) % N : Nat) : Int) ∧ s1 + l1 ≤ (N : Int))
+
+set_option maxHeartbeats 400000 in
+theorem C04_gen_copyAvailable_extents : HuffLZ_CopyAvailableData_translated = true →
+    ∀ (st : St) (size : Nat), st.w < N → st.r < N → size < 2 ^ 64 →
+      CopyExtents st.w st.r size (HuffLZ_CopyAvailableData st.w st.r size) := by
+  gen_bridge =>
+    intro st size hw hr hs
+    generalize st.w = w at *
+    generalize st.r = r at *
+    simp only [HuffLZ_CopyAvailableData, N] at *
+    bits_norm
+    repeat' split
+    -- (no `bits_norm` on the hypotheses of a branch: it would use an infeasible branch's own contradictory hypothesis to
+    --  justify dropping a `% 2^64` inside it, after which `omega` no longer sees that the branch is infeasible)
+    all_goals (simp only [CopyExtents, N])
+    all_goals (and_intros <;> intros <;> and_intros <;> first | trivial | omega)
+
+/-- the bytes one recorded `memcpy(dst, &m_DecompressBuffer[src], len)` reads: `len` consecutive bytes from the *linear* offset
+    `src` (no wrap-around: `memcpy` knows nothing of the circular buffer); an absent slot (`len = -1`) reads nothing -/
+def memcpyBytes (buf : Array UInt8) (src len : Int) : List UInt8 :=
+  (List.range len.toNat).map (fun i => buf.getD (src.toNat + i) 0)
+
+/-- inside the buffer the linear read is the model's circular segment -/
+theorem memcpyBytes_eq_seg (buf : Array UInt8) (s l : Nat) (h : s + l ≤ N) :
+    memcpyBytes buf (s : Int) (l : Int) = seg buf s l := by
+  unfold memcpyBytes seg
+  simp only [Int.toNat_natCast]
+  apply List.map_congr_left
+  intro i hi
+  rw [List.mem_range] at hi
+  rw [Nat.mod_eq_of_lt (by omega)]
+
+theorem memcpyBytes_nonpos (buf : Array UInt8) (s l : Int) (h : l ≤ 0) : memcpyBytes buf s l = [] := by
+  unfold memcpyBytes
+  rw [Int.toNat_of_nonpos h]; rfl
+
+/-- … and, the buffer being `N` bytes long, the slice `buf[src, src + len)` -/
+theorem memcpyBytes_eq_extract (buf : Array UInt8) (s l : Nat) (hb : buf.size = N) (h : s + l ≤ N) :
+    memcpyBytes buf (s : Int) (l : Int) = (buf.extract s (s + l)).toList := by
+  unfold memcpyBytes
+  simp only [Int.toNat_natCast]
+  apply List.ext_getElem
+  · simp; omega
+  · intro i h1 h2
+    simp at h1
+    simp [Array.getD, show s + i < buf.size by omega]
+
+/-- **`HuffLZ::CopyAvailableData` as compiled is the model's `copyAvailable`.**  For every window state with indices below `N`
+    and every `size_t` request: the returned count is the number of bytes the model delivers, the new `m_BuffReadIndex` is the
+    model's, every `memcpy` that moves bytes stays inside the 4096-byte buffer, writes at destination offset `0` (first) /
+    directly behind the first (second), and the bytes the two `memcpy` read — in destination order — are the bytes the model
+    delivers. -/
+theorem C04_gen_copyAvailable : HuffLZ_CopyAvailableData_translated = true →
+    ∀ (st : St) (size : Nat), st.w < N → st.r < N → size < 2 ^ 64 →
+      ∃ d0 s0 l0 d1 s1 l1 : Int,
+        HuffLZ_CopyAvailableData st.w st.r size =
+          some ((((copyAvailable st size).1.length : Nat) : Int), (((copyAvailable st size).2.r : Nat) : Int),
+                d0, s0, l0, d1, s1, l1) ∧
+        (0 < l0 → d0 = 0 ∧ 0 ≤ s0 ∧ s0 + l0 ≤ (N : Int)) ∧
+        (0 < l1 → d1 = (l0.toNat : Int) ∧ 0 ≤ s1 ∧ s1 + l1 ≤ (N : Int)) ∧
+        memcpyBytes st.buf s0 l0 ++ memcpyBytes st.buf s1 l1 = (copyAvailable st size).1 := by
+  intro ht st size hw hr hs
+  have hx := C04_gen_copyAvailable_extents ht st size hw hr hs
+  rw [copyAvailable_eq st size hw hr]
+  simp only [seg_length]
+  have hu : st.unread = (st.w + N - st.r) % N := rfl
+  cases hg : HuffLZ_CopyAvailableData st.w st.r size with
+  | none => rw [hg] at hx; exact hx.elim
+  | some t =>
+    obtain ⟨ret, r', d0, s0, l0, d1, s1, l1⟩ := t
+    rw [hg] at hx
+    simp only [CopyExtents] at hx
+    obtain ⟨h1, h2, h3, h4, h5⟩ := hx
+    rw [← hu] at h1 h2 h3
+    refine ⟨d0, s0, l0, d1, s1, l1, ?_, ?_, ?_, ?_⟩
+    · rw [h1, h2]
+    · intro h; have := h4 h; omega
+    · intro h; have := h5 h; omega
+    · rw [← h3]
+      -- the two slots as model segments
+      have e0 : memcpyBytes st.buf s0 l0 = seg st.buf st.r l0.toNat := by
+        by_cases h : 0 < l0
+        · obtain ⟨_, hs0, hb⟩ := h4 h
+          have : l0 = ((l0.toNat : Nat) : Int) := by omega
+          rw [hs0, this, memcpyBytes_eq_seg _ _ _ (by omega)]
+          simp only [Int.toNat_natCast]
+        · rw [memcpyBytes_nonpos _ _ _ (by omega), show l0.toNat = 0 by omega]; rfl
+      have e1 : memcpyBytes st.buf s1 l1 = seg st.buf ((st.r + l0.toNat) % N) l1.toNat := by
+        by_cases h : 0 < l1
+        · obtain ⟨_, hs1, hb⟩ := h5 h
+          have : l1 = ((l1.toNat : Nat) : Int) := by omega
+          rw [hs1, this, memcpyBytes_eq_seg _ _ _ (by omega)]
+          simp only [Int.toNat_natCast]
+        · rw [memcpyBytes_nonpos _ _ _ (by omega), show l1.toNat = 0 by omega]; rfl
+      rw [e0, e1, seg_append]
+
 theorem C04_gen_endOfStream : (BitStreamReader_EndOfStream_translated && BitStreamReader_GetBitReadPos_translated) = true →
     ∀ (data : Array UInt8) (p buf : Nat),
       BitStreamReader_EndOfStream (bitSize data) p buf = some (if endOfStream data p then 1 else 0) ∧
